@@ -179,6 +179,13 @@ func (r *runner) run(ctx context.Context, isStream bool, input any, opts ...Opti
 
 	// Extract subgraph
 	path, isSubGraph := getNodeKey(ctx)
+	if checkPointID != nil {
+		// a graph node never receives a checkpoint id from its parent (the option is not forwarded): a run
+		// that was given one has been started by a caller of its own, e.g. from inside a Lambda or a tool of
+		// another graph, whose context happens to carry that graph's node path. It loads and writes its
+		// checkpoint under the id it was given, like any other top-level run.
+		isSubGraph = false
+	}
 
 	// load checkpoint from ctx/store or init graph
 	initialized := false
